@@ -35,11 +35,8 @@ THEOREMS = [
     "TornadoModel.C08.readBody_eq_strict",
     "TornadoModel.C08.strict_accepts_sound",
     "TornadoModel.C08.strictRead_eq",
-    "TornadoModel.C08.client_agrees_with_strict_partial",
-    "TornadoModel.C08.client_agrees_with_strict_gz_partial",
-    "TornadoModel.C08.witness_nbsp_model",
-    "TornadoModel.C08.witness_nbsp_strict",
-    "TornadoModel.C08.cl_list_space_refuted",
+    "TornadoModel.C08.client_agrees_with_strict",
+    "TornadoModel.C08.client_agrees_with_strict_gz",
     "TornadoModel.C08.framing_cl_te_rejected",
     "TornadoModel.C08.framing_204",
     "TornadoModel.C08.framing_neither",
@@ -97,9 +94,8 @@ CLAUSE_CAVEATS = [
     'value), parseHead (status line: statusLine_iff; header lines: the C06 model, no C08 theorem), gzipRewrite (no '
     'characterising theorem), and the 1xx / HEAD / 304 rules are written identically on both sides -- on the header line '
     'grammar and gzipRewrite the oracle cannot disagree with the model',
-    'agreement holds outside two recorded known findings: gz-trail (data behind the first gzip member dropped) and '
-    'cl-list-space (NEL / NBSP accepted between the members of a Content-Length list); both are side conditions of the '
-    '_partial theorems and refuted in full (gzip_trailing_refuted, cl_list_space_refuted)',
+    'agreement under gzip holds outside the one recorded known finding gz-trail (data behind the first gzip member dropped): '
+    'side condition ZOk of client_agrees_with_strict_gz, refuted in full by gzip_trailing_refuted',
 ]
 CLAUSES = {
     "status line grammar": "statusLine_iff",
@@ -107,13 +103,12 @@ CLAUSES = {
                                      "read is prefix stable) + client_segmentation_independent (run segs = run [segs.flatten], all "
                                      "cfg / zlib oracle / eof); also exercised by the tie (>= 3 segmentations of every stream)",
     "returns the status, headers and body a strict reader extracts, or fails when that reader rejects":
-        "client_agrees_with_strict_partial / client_agrees_with_strict_gz_partial (run on the whole stream = Spec.strictReadAll, "
+        "client_agrees_with_strict / client_agrees_with_strict_gz (run on the whole stream = Spec.strictReadAll, "
         "the batch reader whose framing decision Spec.framing is written from RFC 9112 6.3 / RFC 9110 8.6 without the model; "
-        "side conditions, both decidable and both necessary: ZOk (gzip) and Spec.clOws: the members of a Content-Length list "
-        "are separated by comma + SP/HTAB -- cl_list_space_refuted: the code splits with Python's \\s and accepts "
-        "`1,<NBSP>1`, known finding cl-list-space); readBody_eq_strict (under clOws, _read_body + "
-        "is_transfer_encoding_chunked = Spec.framing incl. the header fields left behind, every code and limit), "
-        "strict_accepts_sound (whatever Spec.framing accepts the code accepts identically, no side condition), "
+        "the only side condition left is ZOk (gzip); the former side condition on Content-Length lists is gone with the fix "
+        "commit `Content-Length lists are split on optional whitespace (SP / HTAB) only`); readBody_eq_strict (_read_body + "
+        "is_transfer_encoding_chunked = Spec.framing incl. the header fields left behind, every header set, code and limit), "
+        "strict_accepts_sound, strictRead_eq (the reader framing by the model and the independent one coincide), "
         "framing_cl_te_rejected / framing_204 / framing_neither / readBody_cl_te_rejected (the corner cases); built on: "
         "client_agrees_with_spec (decompress_response off: run on the whole stream = Spec.readAll, all framings, 1xx chains, limits) + "
         "client_agrees_with_spec_gz (decompress_response on, under the one explicit decidable side condition ZOk on the body handed "
@@ -129,7 +124,7 @@ CLAUSES = {
         "fetch then succeeds or fails; via pieces_ok, deliver_gz_le, gzChunk_le; pieces_machine: the recording machine is the "
         "machine of the other theorems); the oracle states it on every case for the buffered body and for every prefix of "
         "the streaming_callback deliveries",
-    "1xx interim, 204/304, HEAD": "covered by client_agrees_with_strict_partial / client_agrees_with_strict_gz_partial "
+    "1xx interim, 204/304, HEAD": "covered by client_agrees_with_strict / client_agrees_with_strict_gz "
                                   "(Spec.strictRead skips 1xx and rejects one that announces a body; HEAD / 304 have no body; "
                                   "204: framing_204 -- empty body, no Transfer-Encoding, Content-Length absent or 0) and by the tie",
 }
@@ -239,7 +234,7 @@ def _gen_stream(rng):
             v = "%s,%s" % (v, rng.choice([v, str(n + 1), "", v + " ", "0" + v, " 0" + v, "00" + v, "%s,%s" % (v, v), "%s, %d" % (v, n + 1),
                                           "%s,0%s" % (v, v), "+" + v]))
         elif k < 0.18:
-            # Python's \s beyond SP / HTAB that survives HTTPHeaders.parse: NEL, NBSP (known finding cl-list-space)
+            # Python's \s beyond SP / HTAB that survives HTTPHeaders.parse: NEL, NBSP (rejected since the fix of cl-list-space)
             v = "%s,%s%s" % (v, rng.choice(["\xa0", "\x85", " \xa0", "\xa0 ", "\t\x85", "\xa0\x85"]), v)
             if rng.random() < 0.3:
                 v = "%s,%s" % (v, rng.choice([v.split(",")[0], " " + v.split(",")[0], "\xa0"]))
@@ -660,10 +655,8 @@ def spec_requests(case, impl):
     if case["kind"] == "status":
         return []
     a = (_cfgv(case), b"".join(bytes.fromhex(g) for g in case["segs"]), atom(bool(case["eof"])), _gzv(case))
-    # [0] the oracle: Spec.strictReadAll (framing decided by Spec.framing, stated without the model);
-    # [1] Spec.readAll (same reader, framing decision taken from the model) -- used ONLY to name the class of a
-    #     violation the oracle has already found (see CL_LIST_SPACE), never to decide whether there is one
-    return [line(ID, "strict", *a), line(ID, "spec", *a)]
+    # the oracle: Spec.strictReadAll (framing decided by Spec.framing, stated without the model)
+    return [line(ID, "strict", *a)]
 
 
 def _res(reply):
@@ -736,9 +729,8 @@ def spec_violation(case, impl, replies):
     if want == "REJECT":
         if got[0] == "ok":
             why = "accepts-rejected: the strict reader rejects this stream, fetch returned %r" % (got[:3],)
-            if CL_LIST_SPACE.search(_stream(case)) and len(replies) > 1 and _res(replies[1]) == got:
-                # the fetch is exactly what the reader gives once `,\s*` (Python \s: also NEL / NBSP) is allowed
-                # between the members of a Content-Length list: nothing else is wrong with this result
+            if CL_LIST_SPACE.search(_stream(case)):
+                # names the class of the (fixed) finding cl-list-space; the entry is kind=fixed and suppresses nothing
                 why += " " + CL_LIST_SPACE_MARK
             return why
         return None
@@ -755,7 +747,7 @@ def _stream(case):
 
 # a Content-Length field line with a list member preceded (after optional SP/HTAB) by NEL or NBSP
 CL_LIST_SPACE = re.compile(rb"\n[Cc][Oo][Nn][Tt][Ee][Nn][Tt]-[Ll][Ee][Nn][Gg][Tt][Hh][ \t]*:(?:[^\n]|\n[ \t])*,[ \t\r\n]*[\x85\xa0]")
-CL_LIST_SPACE_MARK = "[differs from the strict reader only in the separator of a Content-Length list]"
+CL_LIST_SPACE_MARK = "[a Content-Length list with NEL / NBSP after a comma]"
 
 
 def signature(case, impl, why):
